@@ -1,0 +1,7 @@
+//go:build !verif
+
+package eventlogger
+
+// verifPoint is a no-op unless the library is built with the "verif" build
+// tag (see verif_on.go).
+func verifPoint(string, ...interface{}) {}
